@@ -9,6 +9,8 @@ pub const H_INBOX: u32 = 1004;
 pub const H_HOST: u32 = 1005;
 pub const H_LEND_END: u32 = 1006;
 pub const H_METHOD: u32 = 1007;
+pub const H_CLOCK_JUMP: u32 = 1008;
+pub const H_HOST_INTERRUPT: u32 = 1009;
 
 pub fn name(site: u32) -> String {
     match site {
@@ -23,6 +25,8 @@ pub fn name(site: u32) -> String {
         H_HOST => "h.host".into(),
         H_LEND_END => "h.lend_end".into(),
         H_METHOD => "h.method".into(),
+        H_CLOCK_JUMP => "h.clock_jump".into(),
+        H_HOST_INTERRUPT => "h.host_interrupt".into(),
         _ => format!("site{}", site),
     }
 }
